@@ -176,6 +176,32 @@ def generate(rng, tier, seed):
                     i = c.line("spec.tr31_build_rawenc\t" + "\t".join([enc_b(kbpk), enc_header(h), enc_b(rb(rng, el)), "i:0"]))
                     c.deferred_auth = (kbpk, i)
                     yield c
+    # headers with many optional blocks parsed with little stack left (seventy frames; the unchanged parser needs a handful whatever
+    # the number of blocks): the number of blocks is the sender's choice, the depth of the caller's stack is not
+    import sys as _sys
+    import inspect as _inspect
+    for ver in "ABCD":
+        bs, ksizes, ml = VERS[ver]
+        for nb in (60, 80, 98, 99):
+            kbpk = rb(rng, ksizes[0])
+            h = make_header(rng, ver, [(f"{j:02d}", "") for j in range(nb)])
+            try:
+                kb = tr31.wrap(kbpk, h, rb(rng, 16))
+            except tr31.HeaderError:
+                continue
+            c = Case(f"{ver}:many-blocks-shallow-stack", {"blocks": nb})
+            c.key = ("shallow", ver, nb)
+            old_limit = _sys.getrecursionlimit()
+            for label, fn, args in (("unwrap", "tr31.unwrap", (kbpk, kb)), ("Header.load", tr31.Header().load, (kb,)), ("KeyBlock(kbpk, text)", tr31.KeyBlock, (kbpk, kb)),
+                                    ("wrap(kbpk, text, key)", "tr31.wrap", (kbpk, kb, rb(rng, 16)))):
+                try:
+                    _sys.setrecursionlimit(len(_inspect.stack(0)) + 70)
+                    r = call_impl(fn, args, stream="tr31")
+                finally:
+                    _sys.setrecursionlimit(old_limit)
+                if not r.ok and r.err != "tr31":
+                    c.fail(f"{label} of a block with {nb} optional blocks, seventy frames of stack left: escaped as {r.err}")
+            yield c
     # random strings
     pools = [PRINTABLE, ALNUM, "0123456789ABCDEF", "".join(NASTY) + ALNUM, "ABCD0123456789"]
     for _ in range(300 * reps):
